@@ -1227,11 +1227,13 @@ fn gen_carousel(args: &Args, emit: &mut dyn FnMut(String)) {
         let car = *rng.pick(&["d0", "d50", "i100"]);
         let mut osecs = Vec::new();
         for k in 0..nobj {
-            osecs.push(format!("O {} {} 0 1", if rng.chance(1, 10) { 0 } else { rng.range(1, (e * b) as u64 * 3) }, k + ci));
+            osecs.push(format!("O {} {} 0 {}", if rng.chance(1, 10) { 0 } else { rng.range(1, (e * b) as u64 * 3) }, k + ci, rng.below(2)));
         }
+        // content encodings too: announced in-band or only in the FDT, with or without a Content-MD5
+        let cenc = if ci % 3 == 2 { *rng.pick(&["zlib", "gzip", "deflate"]) } else { "null" };
         let head = format!(
-            "V fec={} e={} b={} par={} cenc=null fti={} icenc={} mode={} il={} once=1 maxerr=0 cache=10485760 md5=1 tc=1 bld=S opn=1 car={} fcar={} idlems=300 maxpk={} ; {}",
-            fec, e, b, par, rng.below(2), rng.below(2),
+            "V fec={} e={} b={} par={} cenc={} fti={} icenc={} mode={} il={} once=1 maxerr=0 cache=10485760 md5=1 tc=1 bld=S opn=1 car={} fcar={} idlems=300 maxpk={} ; {}",
+            fec, e, b, par, cenc, rng.below(2), rng.below(2),
             if rng.chance(1, 2) { "full" } else { "bt" },
             rng.range(1, 3), car, *rng.pick(&[0u32, 40, 100]), if thorough { 400 } else { 260 },
             osecs.join(" ; ")
